@@ -115,11 +115,21 @@ def check_hash(acc, hash_mod, rng, digest, msg, n):
     return out
 
 
-def expect_value_error(acc, name, fn):
+def expect_value_error(acc, name, fn, again=None):
     acc.count("contract." + name)
     try:
         r = fn()
     except ValueError:
+        # the same refused call once more (error paths must not leave state behind that lets it through)
+        if again is not None:
+            try:
+                r2 = again()
+                acc.violation("prfhash:contract:" + name + ":accepted-on-repeat",
+                              f"refused at first, accepted when repeated (returned {r2!r:.60})", {"contract": name})
+            except ValueError:
+                pass
+            except Exception as e:
+                acc.violation("prfhash:contract:" + name, f"repeat raised {type(e).__name__}: {e}", {"contract": name})
         return
     except Exception as e:
         acc.violation("prfhash:contract:" + name, f"raised {type(e).__name__} instead of ValueError: {e}",
@@ -213,9 +223,15 @@ def run_shard(spec, acc, ctx):
                                       {"digest": digest, "kl": kl, "ml": ml})
                     for d in (-1, 1):
                         if kl + d >= 0:
-                            expect_value_error(acc, "prf-key-length", lambda: f(rng.randbytes(kl + d), m))
+                            bad_k = rng.randbytes(kl + d)
+                            expect_value_error(acc, "prf-key-length", lambda: f(bad_k, m), again=lambda: f(bad_k, m))
                         if ml + d >= 0:
-                            expect_value_error(acc, "prf-message-length", lambda: f(k, rng.randbytes(ml + d)))
+                            bad_m = rng.randbytes(ml + d)
+                            expect_value_error(acc, "prf-message-length", lambda: f(k, bad_m), again=lambda: f(k, bad_m))
+                        # and the instance still answers correctly for a valid call afterwards
+                        if f(k, m) != ref_p_hash(k, m, 24, digest):
+                            acc.violation("prf:wrong-after-refusal", "valid call after a refused one differs from the "
+                                                                     "reference", {"digest": digest, "kl": kl, "ml": ml})
                     acc.count("cases")
                     acc.add("distinct", fp("c", digest, kl, ml))
 
